@@ -36,8 +36,9 @@ type Cluster struct {
 	PeerOpts   []PeerOpt
 	// GapFill: the first 1-3 remote fetches of about half the acknowledged entries fail, so
 	// that ancestors reach other replicas after their descendants, in batches of their own
-	GapFill bool
-	wseq    []int
+	GapFill   bool
+	FlakyOpen bool
+	wseq      []int
 }
 
 type ClusterCfg struct {
@@ -52,10 +53,14 @@ type ClusterCfg struct {
 	// (nil result = none given, i.e. creator-only default)
 	ACL      func(ids []string) accesscontroller.ManifestParams
 	ExtraIDs []string // further ids put on the write list (e.g. a colluding adversary)
+	// FlakyOpen: block fetches fail while the other peers open the database (manifest, access
+	// controller, write list); a failed Open is retried on the same instance, the third
+	// attempt runs fault-free
+	FlakyOpen bool
 }
 
 func (k *K) NewCluster(cfg ClusterCfg) *Cluster {
-	c := &Cluster{K: k, Type: cfg.Type, ByHash: map[string]*WriteRec{}, CreateOpts: cfg.CreateOpts, PeerOpts: cfg.PeerOpts}
+	c := &Cluster{K: k, Type: cfg.Type, ByHash: map[string]*WriteRec{}, CreateOpts: cfg.CreateOpts, PeerOpts: cfg.PeerOpts, FlakyOpen: cfg.FlakyOpen}
 	if cfg.Name == "" {
 		cfg.Name = "db"
 	}
@@ -122,16 +127,28 @@ func (c *Cluster) createOpts(i int) *orbitdb.CreateDBOptions {
 // fetched through the simulated exchange, so the kernel keeps stepping meanwhile).
 func (c *Cluster) OpenOn(i int, steps int) {
 	k := c.K
-	op := k.Do(i, "open", steps, func() (interface{}, error) {
-		ctx, cancel := OpCtx(10 * time.Minute)
-		defer cancel()
-		return c.Peers[i].DB.Open(ctx, c.Addr, c.createOpts(i))
-	})
-	if !op.Done || op.Err != nil {
-		panic(abortPanic{fmt.Sprintf("open on n%d failed: done=%v err=%v pending=%v", i, op.Done, op.Err, k.PendingDesc())})
+	for attempt := 0; ; attempt++ {
+		saved := k.F
+		flaky := c.FlakyOpen && attempt < 2
+		if flaky {
+			k.F.FailFetch = 3
+		}
+		op := k.Do(i, "open", steps, func() (interface{}, error) {
+			ctx, cancel := OpCtx(10 * time.Minute)
+			defer cancel()
+			return c.Peers[i].DB.Open(ctx, c.Addr, c.createOpts(i))
+		})
+		k.F = saved
+		if op.Done && op.Err == nil {
+			c.Stores[i] = op.Val.(iface.Store)
+			c.Peers[i].Stores[c.Addr] = c.Stores[i]
+			return
+		}
+		if !op.Done || !flaky {
+			panic(abortPanic{fmt.Sprintf("open on n%d failed: done=%v err=%v pending=%v", i, op.Done, op.Err, k.PendingDesc())})
+		}
+		k.W.Stat("open-failed-then-retried")
 	}
-	c.Stores[i] = op.Val.(iface.Store)
-	c.Peers[i].Stores[c.Addr] = c.Stores[i]
 }
 
 // NextVal returns a unique value tag for a write by node i.
